@@ -76,6 +76,28 @@ fn c12_k_linestring_with_repeated_last_vertex() {
     assert!(LineString::<f64>(vec![]).closest_point(&Point::new(0.0, 0.0)) == Closest::Indeterminate);
 }
 
+/// Polygon with a hole: a query point inside the hole is nearest to the HOLE ring (not to the shell); a point of the body or
+/// of a ring is an Intersection; a point outside is nearest to the shell.  Bounded: one literal shape, literal query points.
+/// NOT REGISTERED: measured 2026-10-02, CBMC does not finish it in 600 s (Chain<slice::Iter, Once> + ring walks), so seed C12-6 stays undetected.
+#[cfg(kani)]
+#[kani::proof]
+#[kani::unwind(8)]
+#[kani::stub(f64::hypot, hypot_model)]
+#[kani::stub(robust::orient2d, robust_orient2d_model)]
+fn c12_k_polygon_with_hole_nearest_ring() {
+    let shell = LineString(vec![Coord { x: 0.0, y: 0.0 }, Coord { x: 16.0, y: 0.0 }, Coord { x: 16.0, y: 16.0 }, Coord { x: 0.0, y: 16.0 }, Coord { x: 0.0, y: 0.0 }]);
+    let hole = LineString(vec![Coord { x: 6.0, y: 6.0 }, Coord { x: 6.0, y: 10.0 }, Coord { x: 10.0, y: 10.0 }, Coord { x: 10.0, y: 6.0 }, Coord { x: 6.0, y: 6.0 }]);
+    let poly = Polygon::new(shell, vec![hole]);
+    // inside the hole: the nearest point of the polygon is on the hole ring
+    assert!(poly.closest_point(&Point::new(8.0, 7.0)) == Closest::SinglePoint(Point::new(8.0, 6.0)));
+    assert!(poly.closest_point(&Point::new(9.0, 8.0)) == Closest::SinglePoint(Point::new(10.0, 8.0)));
+    // outside the shell: on the shell
+    assert!(poly.closest_point(&Point::new(20.0, 8.0)) == Closest::SinglePoint(Point::new(16.0, 8.0)));
+    // in the body / on the hole ring: the point itself
+    assert!(poly.closest_point(&Point::new(3.0, 3.0)) == Closest::Intersection(Point::new(3.0, 3.0)));
+    assert!(poly.closest_point(&Point::new(6.0, 8.0)) == Closest::Intersection(Point::new(6.0, 8.0)));
+}
+
 /// Rect / Triangle: Intersection(p) exactly when p intersects; otherwise a point on the boundary
 #[cfg(kani)]
 #[kani::proof]
